@@ -57,12 +57,39 @@ def term_lf(t):
     return None
 
 
-def lf_range(l, facts):
-    """[min,max] of a linear form c + sum k*atom under interval facts on the atoms (None = unbounded)."""
+def merge_alts(fl, atom, depth=0):
+    """linear forms a phi / select value can take (merge of the arms of `n = c ? x : y`), or None.  A merge that
+    depends on itself (loop-carried) is not resolved."""
+    if atom[0] != "i" or depth > 4:
+        return None
+    f = fl.f
+    ins = f.insts.get(atom[1])
+    if ins is None or ins["op"] not in ("phi", "select"):
+        return None
+    ops = ins["ops"][1:] if ins["op"] == "select" else ins["ops"]
+    out = []
+    for o in ops:
+        l = fl.lf(o)
+        if l is None:
+            return None
+        if any(a == atom for (a, _k) in l[1]):
+            return None
+        out.append(l)
+    return out or None
+
+
+def lf_range(l, facts, fl=None, depth=0):
+    """[min,max] of a linear form c + sum k*atom under interval facts on the atoms (None = unbounded).  With an
+    InitFlow `fl`, an atom that is a phi / select merge ranges over the union of its arms."""
     lo = hi = l[0]
     for (atom, k) in l[1]:
         t = atom if atom[0] in ("a", "ld") else ("v", atom[1])
         a, b = interval(facts, t)
+        alts = merge_alts(fl, atom, depth) if (fl is not None and depth < 4 and (a, b) == interval(frozenset(), t)) else None
+        if alts:
+            rs = [lf_range(x, facts, fl, depth + 1) for x in alts]
+            if all(r[0] is not None and r[1] is not None and r[0] >= 0 for r in rs):
+                a, b = min(r[0] for r in rs), max(r[1] for r in rs)
         if k > 0:
             lo += k * a
             hi = None if hi is None or b >= (1 << 32) - 1 else hi + k * b
@@ -252,10 +279,10 @@ def run_config(ctx, rep, cfg):
                 continue
             offl = lf_add(dp[1], lf_const(lo_obj), -1)
             facts = facts_at(fa, f, i)
-            lo_n, hi_n = lf_range(n, facts)
-            lo_o, hi_o = lf_range(offl, facts)
+            lo_n, hi_n = lf_range(n, facts, flcache[f.key])
+            lo_o, hi_o = lf_range(offl, facts, flcache[f.key])
             end = lf_add(offl, n)
-            lo_e, hi_e = lf_range(end, facts)
+            lo_e, hi_e = lf_range(end, facts, flcache[f.key])
             if lo_n is None or lo_n < 0 or lo_o is None or lo_o < 0 or hi_e is None or hi_e > cap:
                 rep.violation("C09.R2", cons, f.loc(i), "%s of %s bytes at offset %s of a %d-byte destination is not bounded by the guards in force (%s): length range [%s,%s], end range up to %s" %
                               (base.split(".")[-1], lf_str(n), lf_str(offl), cap, sorted(fact_str(x, s.addr_reg, prog) for x in facts if x[2][0] == "c")[:4], lo_n, hi_n, hi_e), cfg=cn)
